@@ -65,7 +65,7 @@ fn make(tier: &str, seed: u64) -> Vec<Box<dyn Harness>> {
             two.push(vec![a, b]);
             for &c in &ALL_OPS {
                 // at most one predicate-driven op per long history (8-10 keep bits each)
-                let heavy = [a, b, c].iter().filter(|o| matches!(o, Op::RetainNodes | Op::FilterMap)).count();
+                let heavy = [a, b, c].iter().filter(|o| matches!(o, Op::RetainNodes | Op::FilterMap | Op::ExtendFar)).count();
                 if heavy <= 1 {
                     three.push(vec![a, b, c]);
                 }
